@@ -127,7 +127,7 @@ ReferenceSafe == Req /\ cfg.kind \notin {"auth_rel", "auth_query", "auth_abs"} /
                  /\ IsRedirect(step.exp.st) => Safe(step.exp.loc)
 (* the login redirect is the configured login URL, followed at most by ?next=<escaped text> in
    which nothing can terminate or extend the URL *)
-LoginOnly == Req /\ cfg.kind \in {"auth_rel", "auth_query", "auth_abs"} =>
+LoginOnly == Req /\ cfg.kind \in {"auth_rel", "auth_query", "auth_abs"} /\ step.exp.mode = "exact" =>
     LET L == Login(cfg.kind) loc == step.exp.loc IN
     /\ StartsWith(loc, L)
     /\ LET rest == Drop(loc, Len(L)) IN
